@@ -320,10 +320,24 @@ func (ma *ModAnalysis) calleeMods(callee *ssa.Function, ms *ModSet) {
 		ms.add("G:calls:Cond." + callee.Name())
 		return
 	}
+	fc := ma.cs.Funcs[shortFuncName(callee)]
+	if fc != nil && fc.HasMod {
+		// the callee is verified against (or trusted with) its modifies clause: callers rely on it
+		if len(fc.Modifies) == 0 {
+			return
+		}
+		if o := ma.fn[callee]; o != nil {
+			top := ms.Top
+			ms.union(o)
+			ms.Top = top
+		}
+		ma.contractGhostMods(fc, ms)
+		return
+	}
 	if o := ma.fn[callee]; o != nil {
 		ms.union(o)
 	}
-	if fc := ma.cs.Funcs[shortFuncName(callee)]; fc != nil {
+	if fc != nil {
 		ma.contractGhostMods(fc, ms)
 	}
 }
